@@ -1,20 +1,31 @@
 ---------------------------- MODULE MC_InitOrder ----------------------------
-(* All dependency graphs over NV variables + NF functions with at most MaxEdges edges: the
-   declaration sort of the checker against the Go specification's algorithm; exports the graphs.
+(* Dependency graphs over NV variables + NF functions with at most MaxEdges edges: the declaration
+   sort of the checker against the Go specification's algorithm; exports the graphs.
+     Thru = 0: every graph (any edge).
+     Thru = 1: the "through functions" graphs - no direct variable -> variable edge; variables
+               depend on each other only through the call graph of the functions (chains, recursion,
+               mutual recursion), which is where the sort has to follow dependencies transitively.
    One state per graph (edges are added in increasing code order, so every graph is generated once).
-   Run with -continue: the two known divergences of the transcribed algorithm (function dependencies
-   not followed; recursion reported as a loop) violate ImplMeetsRef on many graphs. *)
+   Every graph is exported with its dependencies mentioned in ascending order and, when some node has
+   two dependencies or more, a second time in descending order (rev = 1). *)
 EXTENDS InitOrder, TLC, Json, SequencesExt
-CONSTANTS NV, NF, MaxEdges
+CONSTANTS NV, NF, MaxEdges, Thru
 N == NV + NF
-VARIABLE es
+Codes == IF Thru = 1 THEN ThruCodes(NV, N) ELSE AllCodes(N)
+VARIABLE es          \* increasing sequence of indexes into Codes
 Init == es = <<>>
 Next == /\ Len(es) < MaxEdges
-        /\ \E e \in (IF es = <<>> THEN 0 ELSE es[Len(es)] + 1)..(N * N - 1) : es' = Append(es, e)
-ImplMeetsRef == LET d == DepsOf(es, N) IN ImplOutcomeIO(d, NV) = RefOutcomeIO(d, NV)
+        /\ \E e \in (IF es = <<>> THEN 1 ELSE es[Len(es)] + 1)..Len(Codes) : es' = Append(es, e)
+EdgeCodes(s) == [q \in 1..Len(s) |-> Codes[s[q]]]
+MeetsRef(d) == ImplOutcomeIO(d, NV) = RefOutcomeIO(d, NV)
+ImplMeetsRef == LET c == EdgeCodes(es) IN MeetsRef(DepsOf(c, N)) /\ MeetsRef(DepsOfRev(c, N))
 \* sanity of the reference: when no variable depends on itself, every variable gets initialised exactly once
-RefTotal == LET d == DepsOf(es, N) IN ~RefCyclic(d, NV) => (Len(RefOrder(d, NV)) = NV /\ Cardinality(IoRange(RefOrder(d, NV))) = NV)
-Cases == LET G == SetToSeq(IncSeqs(0, N * N - 1, MaxEdges)) IN
-         [i \in 1..Len(G) |-> [id |-> i, fam |-> "initorder", nv |-> NV, nf |-> NF, deps |-> DepsOf(G[i], N)]]
+RefTotal == LET d == DepsOf(EdgeCodes(es), N) IN ~RefCyclic(d, NV) => (Len(RefOrder(d, NV)) = NV /\ Cardinality(IoRange(RefOrder(d, NV))) = NV)
+\* (helpers with arguments: TLC evaluates an argument once, a definition of a module with CONSTANTS at every use)
+CasesFwd(G, codes) == [i \in 1..Len(G) |-> [id |-> i, fam |-> "initorder", nv |-> NV, nf |-> NF, rev |-> 0,
+                                             deps |-> DepsOf([q \in 1..Len(G[i]) |-> codes[G[i][q]]], N)]] \o <<>>
+CasesRev(two, base) == [i \in 1..Len(two) |-> [two[i] EXCEPT !.id = base + i, !.rev = 1, !.deps = [n \in 1..N |-> IoReverse(two[i].deps[n])]]]
+CasesBoth(fwd) == fwd \o CasesRev(SelectSeq(fwd, LAMBDA c : \E n \in 1..N : Len(c.deps[n]) >= 2), Len(fwd))
+Cases == CasesBoth(CasesFwd(IncSeqs(1, Len(Codes), MaxEdges), Codes))
 ASSUME ndJsonSerialize("cases.ndjson", Cases)
 =============================================================================
